@@ -8,11 +8,15 @@ CONSTANTS
   MCD = 1000
   MCMQ = 0
   MCItemsSel = 2
-  MCCap = 2
+  PCap = 2
+  CapBase = 1
+  CapMax = 2
+  Floods = {}
+  Mutant = ""
   Batches = {1, 3}
   Steps = {500, 1001}
   MaxT = 2502
   MaxOps = 4
 VIEW view
-INVARIANTS TypeOK E1OK E2OK E3OK P1OK P2OK NoArgOK IndepOK NoHang CachesAgree CapOK
+INVARIANTS TypeOK E1OK E2OK E3OK P1OK P2OK NoArgOK IndepOK KeepOK FloodFreshOK NoHang CachesAgree CapOK
 CHECK_DEADLOCK FALSE
